@@ -496,6 +496,10 @@ class DistributedNetwork(BaseManager):
     async def _on_distributed_search_request(
             self, message: DistributedSearchRequest.Request, connection: PeerConnection):
 
+        # Our own search requests are not passed on
+        if message.username == self._settings.credentials.username:
+            return
+
         await self.send_messages_to_children(message)
 
     @on_message(DistributedServerSearchRequest.Request)
@@ -504,6 +508,10 @@ class DistributedNetwork(BaseManager):
 
         if message.distributed_code != DistributedSearchRequest.Request.MESSAGE_ID:
             logger.warning("no handling for server search request with code : %d", message.distributed_code)
+            return
+
+        # Our own search requests are not passed on
+        if message.username == self._settings.credentials.username:
             return
 
         dmessage = DistributedSearchRequest.Request(
